@@ -28,7 +28,9 @@ CONSTANTS Ids,        \* identifiers
           MixKinds,   \* may an identifier be declared both as object and as function
           AsmForms,   \* generate __asm__ labels on first declarations
           DevsOn,     \* deviations switched on in the model compared with the binary
-          Emit        \* "all": VCASE at every state; "full": only at Len = MaxLen; "none"
+          OkPrefix,   \* extend only histories that are well-defined so far (random multi-identifier units)
+          SampleMod,  \* histories of full length MaxLen are emitted only if Hash(hist) % SampleMod = 0 (1: all)
+          Emit        \* "all": VCASE at every state; "full": only where a history cannot be extended; "none"
 
 AllDevs == {"ExternInheritsNoLinkage",     \* getlinkage: `extern` after a visible no-linkage declaration gets *its* linkage (none)
             "ThreadNoTentative",           \* decl(): file-scope _Thread_local without initializer is defined on the spot, every time
@@ -143,6 +145,35 @@ Unsafe(h) ==
 
 IdsOf(h) == {h[i].id : i \in 1..Len(h)}
 
+(* Audit exceptions: case classes on which the reference compiler (gcc -std=c11          *)
+(* -pedantic-errors) is knowingly more lenient or stricter than C11; the clause that     *)
+(* justifies the specification is given with each.  The audit of the specification       *)
+(* against gcc ignores disagreements on units that fall in one of these classes.         *)
+AuditEx(h) ==
+  LET L == LinkFn(h)
+      I(id)  == {i \in 1..Len(h) : h[i].id = id}
+      LD(id) == {i \in I(id) : L[i] # "none"}
+      FD(id) == {i \in LD(id) : h[i].path = <<>>}
+      (* 6.9p3 is a constraint for every identifier with internal linkage; gcc issues only a plain   *)
+      (* warning ("inline function declared but never defined") when a declaration carries `inline`. *)
+      inlundef == \E id \in IdsOf(h) :
+                    /\ \E i \in FD(id) : h[i].kind = "func" /\ h[i].inl
+                    /\ \E i \in LD(id) : L[i] = "int"
+                    /\ ~\E i \in FD(id) : h[i].def = "body"
+      (* 6.7.4p7: "If all of the FILE SCOPE declarations for a function in a translation unit include *)
+      (* the inline function specifier without extern, then the definition ... is an inline           *)
+      (* definition".  gcc lets block-scope declarations take part: an earlier block-scope declaration *)
+      (* without `inline` turns an inline definition into an external one, and a block-scope           *)
+      (* declaration between `extern inline int f(int);` and `inline int f(int a){...}` suppresses the  *)
+      (* external definition.  Class: a defined function with an `inline` file-scope declaration and a  *)
+      (* block-scope declaration.                                                                      *)
+      blockinl == \E id \in IdsOf(h) :
+                    /\ \E i \in FD(id) : h[i].kind = "func" /\ h[i].inl
+                    /\ \E i \in FD(id) : h[i].def = "body"
+                    /\ \E i \in LD(id) : h[i].path # <<>>
+  IN (IF inlundef THEN {"gcc-warns-only-for-undefined-static-inline(6.9p3)"} ELSE {})
+     \cup (IF blockinl THEN {"gcc-counts-block-scope-declarations-for-inline-definition(6.7.4p7)"} ELSE {})
+
 Resolve(h, skip) ==
   LET R    == [id \in IdsOf(h) |-> Resolve1(h, id, skip)]
       ubs  == {R[id].ub : id \in IdsOf(h)} \ {""}
@@ -166,12 +197,12 @@ Summary(h, skip) ==   \* the record named in the property text, per identifier (
 (* heap: struct decl objects in creation order                                *)
 (*   [id, kind, link, path, defined, tent, stor, inldef, alloc, thr, lid, asm, body, at]  *)
 (* tent: the tentativedefns list (heap indices); out: emitted definitions;     *)
-(* lthr: id -> thread-ness of the first declaration with linkage ("" unknown,  *)
-(*       "t", "n") -- the "map of identifiers with linkage" the XXX comment in  *)
+(* lthr: {[id, t]}: thread-ness ("t"/"n") of the first declaration with linkage *)
+(*       of each identifier -- the "map of identifiers with linkage" the XXX comment in *)
 (*       declcommon asks for; only the repaired model consults it.             *)
 
 M0 == [heap |-> <<>>, tent |-> <<>>, out |-> <<>>, uses |-> <<>>, useh |-> <<>>, err |-> "", erri |-> 0, gid |-> 0,
-       fired |-> {}, lthr |-> [id \in Ids |-> ""]]
+       fired |-> {}, lthr |-> {}]
 
 Fail(m, rule, i) == [m EXCEPT !.err = rule, !.erri = i]
 Fire(m, dev) == [m EXCEPT !.fired = @ \cup {dev}]
@@ -255,27 +286,34 @@ UseRec(m, h, i) ==
 AddUse(m, h, i) == [m EXCEPT !.uses = Append(@, UseRec(m, h, i)), !.useh = Append(@, h)]
 
 (* 6.7.1p3 check of the repaired model against the first declaration with linkage *)
+LThr(m, id) == IF \E e \in m.lthr : e.id = id THEN (CHOOSE e \in m.lthr : e.id = id).t ELSE ""
 ThreadCheck(m, d, h, i, D) ==
   LET r == m.heap[h]
       me == IF d.tls THEN "t" ELSE "n"
       linked == r.link # "none" /\ d.kind = "obj"
   IN IF ~linked THEN m
-     ELSE IF m.lthr[d.id] = "" THEN [m EXCEPT !.lthr[d.id] = me]
-     ELSE IF m.lthr[d.id] = me THEN m
+     ELSE IF LThr(m, d.id) = "" THEN [m EXCEPT !.lthr = @ \cup {[id |-> d.id, t |-> me]}]
+     ELSE IF LThr(m, d.id) = me THEN m
      ELSE IF "ThreadMismatchNotDiagnosed" \in D THEN Fire(m, "ThreadMismatchNotDiagnosed")
      ELSE Fail(m, "thread-local-mismatch", i)
 
-(* decl(): case DECLOBJECT after declcommon *)
-ObjDecl(m0, d, i, h, D) ==
-  LET file == d.path = <<>>
-      mA == ThreadCheck(m0, d, h, i, D)
+(* decl(), case DECLOBJECT, from declcommon's return to just before the initializer is parsed: *)
+(* storage duration and mkglobal                                                              *)
+ObjPhase1(m0, d, i, h, D) ==
+  LET mA == ThreadCheck(m0, d, h, i, D)
       r0 == mA.heap[h]
       auto == r0.link = "none" /\ d.sc # "static"
       stor == IF auto THEN "auto" ELSE IF d.tls THEN "thread" ELSE "static"
-      mB == IF auto THEN [mA EXCEPT !.heap[h].stor = stor] ELSE MkGlobal([mA EXCEPT !.heap[h].stor = stor], h)
-      r == mB.heap[h]
   IN IF mA.err # "" THEN mA
-     ELSE IF d.def = "init"
+     ELSE IF auto THEN [mA EXCEPT !.heap[h].stor = stor]
+     ELSE MkGlobal([mA EXCEPT !.heap[h].stor = stor], h)
+
+(* decl(), case DECLOBJECT, the rest: initializer / extern / tentative / defineobj *)
+ObjPhase2(mB, d, i, h, D) ==
+  LET file == d.path = <<>>
+      r == mB.heap[h]
+      stor == r.stor
+  IN IF d.def = "init"
      THEN IF ~file /\ r.link # "none" THEN Fail(mB, "block-linkage-initializer", i)
           ELSE IF r.defined THEN Fail(mB, "object-redefined", i)
           ELSE IF stor = "auto" THEN AddUse([mB EXCEPT !.heap[h].alloc = TRUE, !.heap[h].defined = TRUE], h, i)   \* funcinit
@@ -290,36 +328,48 @@ ObjDecl(m0, d, i, h, D) ==
           LET mC == IF r.link # "none" THEN Fire(mB, "ThreadNoTentative") ELSE mB
           IN AddUse(EmitData(mC, h, i, FALSE), h, i)
 
-(* decl(): case DECLFUNC after declcommon; prior = same-scope prior heap index (0 none) *)
-FuncDecl(m0, d, i, h, prior, D) ==
+(* decl(), case DECLFUNC, from declcommon's return to the test for '{': mkglobal, inlinedefn;   *)
+(* prior = same-scope prior heap index (0 none)                                               *)
+FuncPhase1(m0, d, i, h, prior, D) ==
   LET mA == MkGlobal(m0, h)
       r0 == mA.heap[h]
       inldef == r0.link = "ext" /\ d.inl /\ d.sc # "extern" /\ (prior = 0 \/ m0.heap[prior].inldef)
-      mB == [mA EXCEPT !.heap[h].inldef = inldef]
-      r == mB.heap[h]
-  IN IF d.def = "body"
-     THEN IF d.asm THEN Fail(mB, "function-definition-not-allowed", i)
-          ELSE IF r.defined THEN Fail(mB, "function-redefined", i)
-          ELSE LET mC == IF inldef THEN [mB EXCEPT !.heap[h].body = i] ELSE EmitFunc(mB, h, i)
-               IN AddUse([mC EXCEPT !.heap[h].defined = TRUE], h, i)
-     ELSE \* a later declaration turns an inline definition already seen into an external definition
-          IF r.body # 0 /\ ~inldef
-          THEN IF "InlineLateExternal" \in D THEN AddUse(Fire([mB EXCEPT !.heap[h].body = 0], "InlineLateExternal"), h, i)
-               ELSE AddUse(EmitFunc([mB EXCEPT !.heap[h].body = 0], h, r.body), h, i)
-          ELSE AddUse(mB, h, i)
+  IN [mA EXCEPT !.heap[h].inldef = inldef]
+
+(* decl(), case DECLFUNC, the rest: body (emitfunc unless it is an inline definition) or plain declaration *)
+FuncPhase2(mB, d, i, h, D) ==
+  LET r == mB.heap[h] IN
+  IF d.def = "body"
+  THEN IF d.asm THEN Fail(mB, "function-definition-not-allowed", i)
+       ELSE IF r.defined THEN Fail(mB, "function-redefined", i)
+       ELSE LET mC == IF r.inldef THEN [mB EXCEPT !.heap[h].body = i] ELSE EmitFunc(mB, h, i)
+            IN AddUse([mC EXCEPT !.heap[h].defined = TRUE], h, i)
+  ELSE \* a later declaration turns an inline definition already seen into an external definition:
+       \* the shipped code has dropped the body (XXX comment in decl()); the repaired model emits it now
+       IF r.body # 0 /\ ~r.inldef
+       THEN IF "InlineLateExternal" \in D THEN AddUse(Fire([mB EXCEPT !.heap[h].body = 0], "InlineLateExternal"), h, i)
+            ELSE AddUse(EmitFunc([mB EXCEPT !.heap[h].body = 0], h, r.body), h, i)
+       ELSE AddUse(mB, h, i)
+
+(* returns [m, h]: h = heap index of the struct decl the declaration resolved to *)
+Phase1(m, d, i, D) ==
+  LET file == d.path = <<>>
+      prior == Lookup(m, d.id, d.path)
+  IN IF ~file /\ d.tls /\ d.sc = "none" THEN [m |-> Fail(m, "block-thread-local", i), h |-> 0]
+     ELSE IF prior # 0 /\ m.heap[prior].kind # d.kind THEN [m |-> Fail(m, "different-kind", i), h |-> 0]
+     ELSE IF d.kind = "func" /\ ~file /\ d.sc = "static" THEN [m |-> Fail(m, "block-function-storage-class", i), h |-> 0]
+     ELSE LET dc == DeclCommon(m, d, i, prior, D) IN
+          IF dc.m.err # "" THEN dc
+          ELSE IF d.kind = "obj" THEN [m |-> ObjPhase1(dc.m, d, i, dc.h, D), h |-> dc.h]
+          ELSE [m |-> FuncPhase1(dc.m, d, i, dc.h, prior, D), h |-> dc.h]
+
+Phase2(m, d, i, h, D) ==
+  IF d.kind = "obj" THEN ObjPhase2(m, d, i, h, D) ELSE FuncPhase2(m, d, i, h, D)
 
 ImplDecl(m, d, i, D) ==
   IF m.err # "" THEN m
-  ELSE
-  LET file == d.path = <<>>
-      prior == Lookup(m, d.id, d.path)
-  IN IF ~file /\ d.tls /\ d.sc = "none" THEN Fail(m, "block-thread-local", i)
-     ELSE IF prior # 0 /\ m.heap[prior].kind # d.kind THEN Fail(m, "different-kind", i)
-     ELSE IF d.kind = "func" /\ ~file /\ d.sc = "static" THEN Fail(m, "block-function-storage-class", i)
-     ELSE LET dc == DeclCommon(m, d, i, prior, D) IN
-          IF dc.m.err # "" THEN dc.m
-          ELSE IF d.kind = "obj" THEN ObjDecl(dc.m, d, i, dc.h, D)
-          ELSE FuncDecl(dc.m, d, i, dc.h, prior, D)
+  ELSE LET p == Phase1(m, d, i, D) IN
+       IF p.m.err # "" THEN p.m ELSE Phase2(p.m, d, i, p.h, D)
 
 (* emittentativedefns(), then (repaired model only) the 6.9p3 check *)
 RECURSIVE FlushTent(_, _)
@@ -385,9 +435,13 @@ Declare(d) ==
   /\ mOff' = ImplDecl(mOff, d, Len(hist) + 1, {})
   /\ mOn' = ImplDecl(mOn, d, Len(hist) + 1, DevsOn)
 
-Next ==
+Extensible ==
   /\ Len(hist) < MaxLen
   /\ ~(mOff.err # "" /\ mOn.err # "")          \* the compiler has stopped in both models: extensions are unobservable
+  /\ (OkPrefix /\ hist # <<>>) => Resolve(hist, Unsafe(hist)).cls = "ok"
+
+Next ==
+  /\ Extensible
   /\ \E id \in Ids, p \in NextPaths, a \in (IF AsmForms THEN Bool ELSE {FALSE}) :
        \E f \in (IF p = <<>> THEN FileForms ELSE BlockForms) :
          LET firstdecl == ~\E j \in 1..Len(hist) : hist[j].id = id IN
@@ -430,16 +484,26 @@ Inv_FiredExplains ==
 Case ==
   LET skip == SkipSafe
       sp == Resolve(hist, skip)
-      on == ProjSeq(mOn, DevsOn, skip)
-      base == [h |-> hist, skip |-> skip, spec |-> sp, on |-> on, fired |-> FiredAtEnd(mOn, DevsOn, skip),
-               sum |-> Summary(hist, skip)]
+      on == IF sp.cls # "ub" /\ Same(Proj(mOn, DevsOn, skip), sp) THEN [same |-> TRUE] ELSE ProjSeq(mOn, DevsOn, skip)
+      base0 == [h |-> hist, skip |-> skip, spec |-> sp, on |-> on, fired |-> FiredAtEnd(mOn, DevsOn, skip),
+                aex |-> AuditEx(hist)]
+      base == IF Len(hist) <= 2 \/ Emit = "full" THEN base0 @@ [sum |-> Summary(hist, skip)] ELSE base0
   IN IF skip # {} /\ sp.cls = "ok"
      THEN base @@ [all |-> [spec |-> Resolve(hist, {}), on |-> ProjSeq(mOn, DevsOn, {}),
                                                fired |-> FiredAtEnd(mOn, DevsOn, {})]]
      ELSE base
 
+(* deterministic sampling of the longest histories for replay (all of them are model-checked) *)
+Code(d) == (IF d.sc = "none" THEN 0 ELSE IF d.sc = "static" THEN 1 ELSE 2) + 3 * (IF d.tls THEN 1 ELSE 0)
+           + 6 * (IF d.inl THEN 1 ELSE 0) + 12 * (IF d.kind = "obj" THEN 0 ELSE 1)
+           + 24 * (IF d.def = "none" THEN 0 ELSE 1) + 48 * Len(d.path) + 144 * (IF d.asm THEN 1 ELSE 0)
+           + 288 * (IF d.path = <<>> THEN 0 ELSE d.path[Len(d.path)])
+RECURSIVE HashFrom(_, _)
+HashFrom(k, acc) == IF k > Len(hist) THEN acc ELSE HashFrom(k + 1, (acc * 31 + Code(hist[k]) + 7) % 1000003)
+Sampled == SampleMod = 1 \/ Len(hist) < MaxLen \/ HashFrom(1, 17) % SampleMod = 0
+
 Inv_Emit ==
-  IF hist # <<>> /\ (Emit = "all" \/ (Emit = "full" /\ Len(hist) = MaxLen))
+  IF hist # <<>> /\ ((Emit = "all" /\ Sampled) \/ (Emit = "full" /\ ~Extensible))
   THEN PrintT("VCASE " \o ToJson(Case))
   ELSE TRUE
 =============================================================================
